@@ -46,6 +46,11 @@ CLAIMS["C02"] = dict(
   text="Decides the structural clauses of dimensional soundness on /repo's current tree: every operation that requires equal or empty dimensionality (Add/Sub/rem, hypot, atan2, sin/cos/tan, asin/acos/atan, log base, the temperature suffix, pow/shl/shr exponent, and/or/xor, unit-list members and value) becomes unreachable in the CFG once the accepting edges of the dimensionality tests on exactly the operands it combines are removed; the exponent algebra has the documented shape (merge adds and drops zero, Div = Mul o recip, powi multiplies, root divides behind the divisibility gate, inverse trig returns radian); every value stored into a Dimensionality map is NonZero by induction over all writers; btree_merge's arms insert what they advance. This covers all inputs for these clauses; that each database unit has the right dimensionality is data and is not claimed.",
   note="Trusted: driver and callee resolution; the two justified sites in rules/c02.py JUSTIFIED (each backed by a machine-checked clause). A helper-function refactor of a gate is reported as an unrecognised gate.",
   design_ref="DESIGN.md section 4, C02")
+CLAIMS["C03"] = dict(
+  technique="gate (cut-set) analysis on the MIR CFG of eval_query with value-identity def-use, K4 guarded float-reachability for the quotient, HIR/MIR shape facts of conformance_err",
+  text="On /repo's current tree: both Context::show sites of eval_query and the Number divisions feeding them are unreachable once the accepting edges of `top.unit == bottom.unit` on exactly those two operands are deleted; the failing edge of the same test builds QueryError::Conformance from conformance_err of the same operands; the value shown is Div for &Number of those operands, whose zero test is the exact Numeric comparison and whose callee closure contains no unguarded float-introducing site; conformance_err ties the reciprocal hint to top*bottom being dimensionless and does its unit arithmetic on operands whose value was reset to exactly 1 (so a zero side cannot turn the error into a crash); substance property replies for a target are built only behind a dimensionality comparison. Decides refusal and exactness structure for all inputs; `x*t = v` over the ~4000 database units is data and not claimed.",
+  note="Trusted: driver, callee resolution, num-rational's exact arithmetic (exactness below the BigRat wrapper is C01's clause).",
+  design_ref="DESIGN.md section 4, C03")
 NA = {
  "C05": "digit strings, recurring-block offsets and the 1-ulp truncation bound are number-theoretic facts about runtime values of p/q and the base; no structural clause is a genuine necessary condition (DESIGN.md section 4, C05)",
 }
